@@ -100,6 +100,9 @@ func (e *Evidence) UnmarshalCOSE(cwt []byte) error {
 	}
 
 	if e.Claims, err = DecodeClaimsFromCBOR(e.message.Payload); err != nil {
+		// do not keep the envelope of a token that is not PSA evidence:
+		// a failed decode must not leave the Evidence verifiable
+		e.message = cose.NewSign1Message()
 		return fmt.Errorf("failed CBOR decoding of PSA claims: %w", err)
 	}
 
